@@ -135,6 +135,9 @@ def correspondence(rep, ctx):
             if abs(x - y) > Fraction(1, 10**12) * max(abs(x), abs(y)) and max(abs(x), abs(y)) > Fraction(1, 10**290):
                 fail("hp-time-additivity", desc, f"{nm}: {a[nm]!r} vs {b[nm]!r}")
                 break
+    # ---------------- an inventory used, changed in place, used again == a fresh inventory with the same amounts
+    from decaylib import mutated_object_block
+    bad += mutated_object_block(rep, ctx, "c07/mutated-object", hp_too=True, nseq=(24 if thorough else 6))
     # ---------------- the laws on synthetic datasets (loaded through load_dataset(dir_path=…)): every derived inventory must
     #                  stay bound to ITS dataset, and scaling / adding / splitting commute with decay there too
     import synthetic
